@@ -6,9 +6,9 @@
   * CursFeatureWriter._getCursiveAnchorPairs             ("entry","exit") / ("entry.S","exit.S") listed iff BOTH names occur among the glyphs'
                                                          anchors, in increasing order of the entry name
 
-FINDING (notes/C18.md, F-C18-a): `_getCursiveAnchorPairs` calls `.startswith` on every anchor name; an UNNAMED anchor (UFO allows it) raises
-AttributeError and takes the whole compile down.  The vocabulary below therefore types anchor names as `str` (named anchors only) for that
-function: the crash on `name is None` is outside the proved domain and recorded as a finding, not hidden.
+Finding F-C18-a (notes/C18.md; repaired in /repo b1c4f33): `_getCursiveAnchorPairs` called `.startswith` on every anchor name, an UNNAMED
+anchor (UFO allows it) raised AttributeError and took the whole compile down.  Anchor names are Optional[str] here; that the collected set
+holds no None is an obligation of the contract (`safe.TypeError` of the set model, contracts/c06sets.py).
 """
 import z3
 
@@ -39,60 +39,40 @@ contract(
     locals=dict(_src.locals),
 )
 
-# ---- _getAnchors ---------------------------------------------------------------------------------------------------------------------------
-_FG = "self.context.font.glyphs"
-_A = f"{_FG}[glyphName].anchors"
-
-
-def _side(k, nm):
-    return {
-        f"{nm}-null-iff-no-such-anchor": f"iff(result[{k}] is None, glyphName not in {_FG} or not any({_A}[b].name == {nm}Name for b in range(len({_A}))))",
-        f"{nm}-at-rounded-coordinates": f"implies(result[{k}] is not None, result[{k}].kind == 'Anchor' and any({_A}[b].name == {nm}Name"
-        f" and result[{k}].x == c18_round({_A}[b].x) and result[{k}].y == c18_round({_A}[b].y) for b in range(len({_A}))))",
-    }
-
-
-contract(
-    "ufo2ft.featureWriters.cursFeatureWriter:CursFeatureWriter._getAnchors",
-    props=["C18"],
-    params={"self": Ref("c18_CW"), "glyphName": STR, "entryName": STR, "exitName": STR},
-    returns=Tuple(Opt(Ref(NODE)), Opt(Ref(NODE))),
-    globals={"ast": M.fea_shim(), "isinstance": M.ISINSTANCE},
-    requires=["not self.context.isVariable"],
-    ensures={**_side(0, "entry"), **_side(1, "exit"),
-             "two-nodes": "implies(result[0] is not None and result[1] is not None, result[0] != result[1])"},
-    canaries={"entry-always-null": "result[0] is None", "exit-not-rounded": "result[1] is None or result[1].x == 0"},
-    locals={"entryAnchor": Opt(Ref(NODE)), "exitAnchor": Opt(Ref(NODE))},
-)
-
 # ---- _getCursiveAnchorPairs ------------------------------------------------------------------------------------------------------------------
-cls("c18_NAnchor", fields={"name": STR, "x": REAL, "y": REAL}, notes="a NAMED UFO anchor (see the finding in the module docstring): name, x, y")
-cls("c18_NGlyph", fields={"name": STR, "anchors": List(Ref("c18_NAnchor"))}, notes="a UFO glyph whose anchors all have names")
+from .c06sets import NAMESET, NAMESET_CTOR  # noqa: E402
+
 PAIRS = List(Tuple(STR, STR))
-ITEMS = List(Tuple(STR, Ref("c18_NGlyph")))  # what `orderedGlyphSet.items()` yields
+ITEMS = List(Tuple(STR, Ref("c18_UGlyph")))  # what `orderedGlyphSet.items()` yields
 GCP = "ufo2ft.featureWriters.cursFeatureWriter:CursFeatureWriter._getCursiveAnchorPairs"
-UPD = "anchors.update((a.name for a in glyph.anchors))"
+UPD = "anchors.update((a.name for a in glyph.anchors if a.name))"
 LOOP1 = "for (_, glyph) in glyphs"
 LOOP2 = "for anchor in anchors"
 
 
+_NM = "glyphs[a][1].anchors[b].name"
+_IF2 = "if anchor.startswith('entry.') and f'exit.{anchor[6:]}' in anchors:"
+
+
 def _occurs(nm, bound="len(glyphs)"):
     """some anchor of some glyph has exactly this name"""
-    return f"any(any(glyphs[a][1].anchors[b].name == {nm} for b in range(len(glyphs[a][1].anchors))) for a in range({bound}))"
+    return f"any(any(glyphs[a2][1].anchors[b2].name == {nm} for b2 in range(len(glyphs[a2][1].anchors))) for a2 in range({bound}))"
 
 
 def _pair_ok(p):
-    return (f"(({p}[0] == 'entry' and {p}[1] == 'exit') or ({p}[0].startswith('entry.') and {p}[1] == 'exit.' + {p}[0][6:]))")
+    return (f"(({p}[0] == 'entry' and {p}[1] == 'exit') or (c18_is_suffixed_entry({p}[0]) and {p}[1] == c18_exit_of({p}[0])))")
 
 
-GCP_COMMON = dict(props=["C18"], params={"glyphs": ITEMS}, returns=PAIRS, merge_branches=False)
+# `anchors` as a set OBJECT (contracts/c06sets.py): `set()` creates it, `update(<generator>)` is the union with the generator's image set
+GCP_COMMON = dict(props=["C18"], params={"glyphs": ITEMS}, returns=PAIRS, merge_branches=False, modifies=[NAMESET + ".elems"])
+
 
 # sorted() of a list of pairs of str: Python compares tuples lexicographically; the facts used here: same length, same elements, and the FIRST
 # components are in non-decreasing order (a consequence of the lexicographic order)
 @M.shim_function(
     "sorted_pairs",
     "sorted(xs) for a list of (str, str) tuples: a list r with len(r) == len(xs), every r[k] is some xs[j] and every xs[j] is some r[k], and r[k1][0] <= r[k2][0] for k1 < k2 "
-    "(consequences of: sorted returns the lexicographically sorted permutation)",
+    "and `p in r` iff `p in xs` (consequences of: sorted returns the lexicographically sorted permutation)",
 )
 def _sorted_pairs(ex, st, args, kwargs, node):
     from pyvc.core import Unsupported, fresh_name, lift
@@ -111,62 +91,97 @@ def _sorted_pairs(ex, st, args, kwargs, node):
     st.assume(z3.ForAll([k], z3.Implies(z3.And(0 <= k, k < z3.Length(r)), z3.Exists([j], z3.And(0 <= j, j < z3.Length(s), r[k] == s[j])))))
     st.assume(z3.ForAll([j], z3.Implies(z3.And(0 <= j, j < z3.Length(s)), z3.Exists([k], z3.And(0 <= k, k < z3.Length(r), r[k] == s[j])))))
     st.assume(z3.ForAll([k, k2], z3.Implies(z3.And(0 <= k, k < k2, k2 < z3.Length(r)), first(r[k]) <= first(r[k2]))))
+    x = z3.Const(fresh_name("sx"), PAIRS.elem.sort())
+    st.assume(z3.ForAll([x], z3.Contains(r, z3.Unit(x)) == z3.Contains(s, z3.Unit(x))))  # `p in sorted(xs)` iff `p in xs`
     return Val(PAIRS, r)
 
 
 from pyvc.symex import FuncRef  # noqa: E402
 
 SORTED_PAIRS = M.native_global(Val.obj(FuncRef(_sorted_pairs, "c17shim.sorted_pairs")), sorted)
+_GLOBALS = {"sorted": SORTED_PAIRS, "set": NAMESET_CTOR}
 
 contract(
     GCP,
     name="only",
     **GCP_COMMON,
-    globals={"sorted": SORTED_PAIRS},
-    comp_membership=True,
+    globals=_GLOBALS,
     ensures={
         # a pair is listed only if it has one of the two shapes and BOTH names occur among the glyphs' anchors
-        "pair-shapes": "all(" + _pair_ok("result[k]") + " for k in range(len(result)))",
-        "entry-name-occurs": "all(" + _occurs("result[k][0]") + " for k in range(len(result)))",
-        "exit-name-occurs": "all(" + _occurs("result[k][1]") + " for k in range(len(result)))",
+        # (quantified over the ELEMENTS of the list: `p in sorted(xs)` iff `p in xs`, no position bookkeeping across the sort)
+        "pair-shapes": "all(" + _pair_ok("p") + " for p in elems(result))",
+        "entry-name-occurs": "all(" + _occurs("p[0]") + " for p in elems(result))",
+        "exit-name-occurs": "all(" + _occurs("p[1]") + " for p in elems(result))",
         "increasing-entry-names": "all(all(implies(k1 < k2, result[k1][0] <= result[k2][0]) for k2 in range(len(result))) for k1 in range(len(result)))",
     },
     canaries={"empty": "len(result) == 0"},
-    locals={"anchors": Set(STR), "anchorPairs": PAIRS},
+    locals={"anchors": Ref(NAMESET), "anchorPairs": PAIRS},
+    hints={_IF2: ["c18_exit_of(anchor) == 'exit.' + anchor[6:] and c18_is_suffixed_entry(anchor) == anchor.startswith('entry.')"]},
     loops={
         LOOP1: Loop(index="i", invariants={"names-occur": "all(" + _occurs("n", "i") + " for n in anchors)"}),
         LOOP2: Loop(done="D", invariants={
-            "pairs": "all(" + _pair_ok("anchorPairs[k]") + " and anchorPairs[k][0] in anchors and anchorPairs[k][1] in anchors for k in range(len(anchorPairs)))",
+            "shapes": "all(" + _pair_ok("p") + " for p in elems(anchorPairs))",
+            "entry-occurs": "all(" + _occurs("p[0]") + " for p in elems(anchorPairs))",
+            "exit-occurs": "all(" + _occurs("p[1]") + " for p in elems(anchorPairs))",
         }),
     },
 )
 
+# The two string computations of the loop, as NAMED functions: under a quantifier they stay uninterpreted symbols (string theory under
+# quantifiers is where the solvers time out), at the ground terms of an obligation their defining equations are unfolded.  (The never-taken
+# self-call only marks them as "recursive" for the engine, which is what makes it treat them as symbols with definitions instead of macros.)
+@specfn(STR, n=STR)
+def c18_exit_of(n):
+    """the exit anchor name that pairs with the entry anchor name n = 'entry.' + S:  'exit.' + S"""
+    if len(n) < 0:
+        return c18_exit_of(n)
+    return "exit." + n[6:]
+
+
+@specfn(BOOL, n=STR)
+def c18_is_suffixed_entry(n):
+    if len(n) < 0:
+        return c18_is_suffixed_entry(n)
+    return n.startswith("entry.")
+
+
+_NMS = "(glyphs[a][1].anchors[b].name + '')"  # the same name as a str (it is not None where this is used)
 contract(
     GCP,
     name="every",
     **GCP_COMMON,
-    globals={"sorted": SORTED_PAIRS},
-    seq_positions=True,  # `S.update(<generator>)`: every position of the materialised list holds a member of the set (opt-in engine fact)
+    globals=_GLOBALS,
     ensures={
         # the plain pair is listed if both plain names occur; a suffixed pair is listed if both suffixed names occur
-        "plain-pair-if-both-occur": "implies(" + _occurs("'entry'") + " and " + _occurs("'exit'") + ", any(result[k][0] == 'entry' and result[k][1] == 'exit' for k in range(len(result))))",
-        "suffixed-pair-if-both-occur": "all(all(implies(glyphs[a][1].anchors[b].name.startswith('entry.') and " + _occurs("'exit.' + glyphs[a][1].anchors[b].name[6:]")
-        + ", any(result[k][0] == glyphs[a][1].anchors[b].name and result[k][1] == 'exit.' + glyphs[a][1].anchors[b].name[6:] for k in range(len(result))))"
+        "plain-pair-if-both-occur": "implies(" + _occurs("'entry'") + " and " + _occurs("'exit'") + ", ('entry', 'exit') in result)",
+        # (the two `!= ''` are redundant natively — 'entry.S' and 'exit.S' are never empty — and spare the solvers the definitions under the quantifier)
+        "suffixed-pair-if-both-occur": "all(all(implies(" + _NM + " is not None and " + _NM + " != '' and c18_is_suffixed_entry(" + _NM + ") and c18_exit_of(" + _NM + ") != '' and " + _occurs("c18_exit_of(" + _NM + ")")
+        + ", (" + _NMS + ", c18_exit_of(" + _NM + ")) in result)"
         " for b in range(len(glyphs[a][1].anchors))) for a in range(len(glyphs)))",
     },
     canaries={"empty": "len(result) == 0"},
-    locals={"anchors": Set(STR), "anchorPairs": PAIRS, "m0": Set(STR), "mprev": Set(STR)},
-    ghost_vars={"m0": (Set(STR), "set()"), "mprev": (Set(STR), "set()")},
-    ghost={UPD: ["mprev = m0", "m0 = anchors"]},
-    hints={UPD: ["all(n in anchors for n in mprev)", "all(glyph.anchors[b].name in anchors for b in range(len(glyph.anchors)))"]},
+    locals={"anchors": Ref(NAMESET), "anchorPairs": PAIRS},
+    hints={
+        _IF2: ["c18_exit_of(anchor) == 'exit.' + anchor[6:] and c18_is_suffixed_entry(anchor) == anchor.startswith('entry.')"],
+        # after the second loop: the postcondition about `anchorPairs` (before sorting), in three steps
+        "for anchor in anchors:": [
+            "all(all(implies(" + _NM + " is not None and " + _NM + " != '' and c18_exit_of(" + _NM + ") != '' and " + _occurs("c18_exit_of(" + _NM + ")") + ", c18_exit_of(" + _NM + ") in anchors)"
+            " for b in range(len(glyphs[a][1].anchors))) for a in range(len(glyphs)))",
+            "all(implies(c18_is_suffixed_entry(n) and c18_exit_of(n) in anchors, (n, c18_exit_of(n)) in anchorPairs) for n in anchors)",
+            "all(all(implies(" + _NM + " is not None and " + _NM + " != '' and c18_is_suffixed_entry(" + _NM + ") and c18_exit_of(" + _NM + ") != '' and " + _occurs("c18_exit_of(" + _NM + ")")
+            + ", (" + _NMS + ", c18_exit_of(" + _NM + ")) in anchorPairs)"
+            " for b in range(len(glyphs[a][1].anchors))) for a in range(len(glyphs)))",
+        ],
+    },
     loops={
         LOOP1: Loop(index="i", invariants={
-            "snapshot": "m0 == anchors",
-            "all-names": "all(all(glyphs[a][1].anchors[b].name in anchors for b in range(len(glyphs[a][1].anchors))) for a in range(i))",
+            # every non-empty anchor name seen so far is in the set
+            "all-names": "all(all(implies(glyphs[a][1].anchors[b].name is not None and glyphs[a][1].anchors[b].name != '', glyphs[a][1].anchors[b].name in anchors)"
+            " for b in range(len(glyphs[a][1].anchors))) for a in range(i))",
         }),
         LOOP2: Loop(done="D", invariants={
-            "plain-kept": "implies('entry' in anchors and 'exit' in anchors, any(anchorPairs[k][0] == 'entry' and anchorPairs[k][1] == 'exit' for k in range(len(anchorPairs))))",
-            "suffixed-done": "all(implies(n.startswith('entry.') and ('exit.' + n[6:]) in anchors, any(anchorPairs[k][0] == n and anchorPairs[k][1] == 'exit.' + n[6:] for k in range(len(anchorPairs)))) for n in D)",
+            "plain-kept": "implies('entry' in anchors and 'exit' in anchors, ('entry', 'exit') in anchorPairs)",
+            "suffixed-done": "all(implies(c18_is_suffixed_entry(n) and c18_exit_of(n) in anchors, (n, c18_exit_of(n)) in anchorPairs) for n in D)",
         }),
     },
 )
